@@ -89,6 +89,7 @@ import (
 	"os"
 	"regexp"
 	"runtime"
+	"runtime/debug"
 	"sort"
 	"strings"
 	"sync"
@@ -1686,7 +1687,7 @@ func evalCase(r *rand.Rand, rc rcase) outcome {
 	}
 	// the orderings of the rules INSIDE the rule-sets of generated or members
 	if !orderDiff && hasGeneratedMembers(rc.rs) {
-		for k := 0; k < 4; k++ {
+		for k := 0; k < 3; k++ {
 			text := schemaText(rc.c, annotation(innerReordered(r, rc.rs, k == 0)))
 			if text == firstText {
 				continue
@@ -1750,11 +1751,7 @@ func evalCase(r *rand.Rand, rc rcase) outcome {
 	}
 	// call history: the same text on an object that has seen other calls before Check
 	if !orderDiff {
-		hopt := r.Intn(2) == 0
-		base := firstV
-		if hopt != opt {
-			base = check(firstText, hopt)
-		}
+		hopt, base := opt, firstV // the configuration of the case (it alternates between the cases)
 		h := randomHistory(r, firstText)
 		v, note := checkHistory(firstText, hopt, h)
 		if v.timeout || base.timeout {
@@ -1850,6 +1847,7 @@ const ruleText = "node contexts {root, object property, array item} x {integer, 
 // Run is the entry point of `vh c08-rules`.
 func Run(args []string) {
 	rep := vh.NewReport("c08-rules", ruleText)
+	debug.SetGCPercent(400) // many short-lived schema objects: the collector otherwise takes a quarter of the run
 	dump := len(args) > 0 && args[0] == "dump"
 
 	type job struct {
@@ -1866,7 +1864,7 @@ func Run(args []string) {
 	thorough := vh.Tier() == "thorough"
 	nRandom := vh.Pick(28000, 800000)
 	nDup := vh.Pick(3000, 60000)
-	nMember := vh.Pick(7000, 150000)
+	nMember := vh.Pick(6000, 150000)
 	gen := func(i int) rcase {
 		r := vh.NewRand((8_000_000_011 + int64(i)) * 2000029)
 		if i >= nRandom+nDup {
